@@ -403,3 +403,15 @@ class GenCallV(AVal):
 
     def __repr__(self):
         return f'<generator {self.fi.short}>'
+
+
+class PartialV(AVal):
+    """functools.partial(fn, *args, **kwargs) / operator.methodcaller / itemgetter / attrgetter: a deferred call"""
+    def __init__(self, kind, fn, args=(), kwargs=None):
+        self.kind = kind            # 'partial' | 'methodcaller' | 'itemgetter' | 'attrgetter'
+        self.fn = fn
+        self.args = list(args)
+        self.kwargs = dict(kwargs or {})
+
+    def __repr__(self):
+        return f'<{self.kind} {self.fn!r}>'
